@@ -1416,6 +1416,16 @@ class Simplifier:
     @annotate_types_on_change
     def simplify_conditionals(self, expression):
         """Simplifies expressions like IF, CASE if their condition is statically known."""
+
+        def branch(result):
+            # CASE / IF group their branches; keep that grouping when a branch that is itself an
+            # operator replaces the conditional inside another operator: IF(TRUE, a + b, 3) * c
+            if isinstance(result, (exp.Binary, exp.Unary)) and isinstance(
+                expression.parent, (exp.Binary, exp.Unary)
+            ):
+                return exp.paren(result, copy=False)
+            return result
+
         if isinstance(expression, exp.Case):
             this = expression.this
             for case in expression.args["ifs"]:
@@ -1427,18 +1437,18 @@ class Simplifier:
                 if always_true(cond):
                     # this branch is only taken for sure if no earlier branch can match
                     if case is expression.args["ifs"][0]:
-                        return case.args["true"]
+                        return branch(case.args["true"])
                     break
 
                 if always_false(cond):
                     case.pop()
                     if not expression.args["ifs"]:
-                        return expression.args.get("default") or exp.null()
+                        return branch(expression.args.get("default") or exp.null())
         elif isinstance(expression, exp.If) and not isinstance(expression.parent, exp.Case):
             if always_true(expression.this):
-                return expression.args["true"]
+                return branch(expression.args["true"])
             if always_false(expression.this):
-                return expression.args.get("false") or exp.null()
+                return branch(expression.args.get("false") or exp.null())
 
         return expression
 
